@@ -15,5 +15,12 @@ VERIF = os.path.dirname(os.path.dirname(os.path.abspath(__file__)))
 json.load(open(os.path.join(VERIF, "contracts", "plan.json")))
 os.makedirs(os.path.join(VERIF, "evidence"), exist_ok=True)
 os.makedirs(os.path.join(VERIF, "replays"), exist_ok=True)
+# build universes (DESIGN 11.8): say which dependency resolution the Kani verdicts will be taken in
+lock = os.path.join(kx.REPO, "Cargo.lock")
+if os.path.exists(lock):
+    same = open(lock).read() == open(kx.PINNED_LOCK).read() if os.path.exists(kx.PINNED_LOCK) else None
+    print("Cargo.lock of the tree:", "identical to contracts/Cargo.lock.pinned" if same else "differs from contracts/Cargo.lock.pinned (the tree's own lock file is used)")
+else:
+    print("the tree has no Cargo.lock: contracts/Cargo.lock.pinned will be used")
 print("selfcheck", "ok" if ok else "FAILED")
 sys.exit(0 if ok else 1)
